@@ -266,6 +266,19 @@ pub fn plan(tier: Tier) -> Plan {
             }));
         }
     }
+    {
+        let total = if thorough { 420 } else { 84 };
+        for part in 0..16usize {
+            p.units.push(unit("mixed-mid-size-family-(finite-family)", format!("mixed part {}", part), move |st, rep| {
+                for (i, (_, kvs)) in mixed_family(total).into_iter().enumerate() {
+                    if i % 16 != part || kvs.len() > 160 { continue; }
+                    st.nontrivial += 1;
+                    st.count("mixed_cases", 1);
+                    do_case(&kvs, (3, 3), Scope { full_bounds: false, wrappers: false, repeats: false }, st, rep);
+                }
+            }));
+        }
+    }
     // long keys: bounds that are long prefixes / extensions / neighbours
     p.units.push(unit("long-key-family", "long keys".into(), move |st, rep| {
         for (_, kvs) in long_key_family() {
